@@ -46,6 +46,51 @@ def check_program(ctx, r, a):
                        diff=diff, obligation="PrecOK tree (C09.gen_derives) / norm tree = ast.parse(text) / toks tree = tokenize(text)"), found)
 
 
+def sympy_json(e):
+    """the SymPy tree as the model reads it: ["sym", name] | ["int", i] | ["rat", p, q] | ["add", args...] | ["mul", args...]"""
+    from sympy import Symbol, Integer, Rational, Add, Mul
+    if isinstance(e, Symbol):
+        return ["sym", str(e)]
+    if isinstance(e, Integer):
+        return ["int", int(e)]
+    if isinstance(e, Rational):
+        return ["rat", int(e.p), int(e.q)]
+    if isinstance(e, Add):
+        return ["add"] + [sympy_json(a) for a in e.args]
+    if isinstance(e, Mul):
+        return ["mul"] + [sympy_json(a) for a in e.args]
+    return ["other", str(type(e).__name__)]
+
+
+def recorded_build_expr_calls(rng, n):
+    """every (SymPy expression, tree) pair that CoordAccess.build_expr handles while the real compiler translates generated index-math
+    specifications (the builder is wrapped in this process only; no source change)"""
+    import gens
+    from teaal.trans.coord_access import CoordAccess
+    orig = CoordAccess.__dict__["build_expr"]
+    calls = []
+
+    def rec(sexpr):
+        t = orig.__func__(sexpr)
+        calls.append((sexpr, t))
+        return t
+    CoordAccess.build_expr = staticmethod(rec)
+    try:
+        for i in range(n):
+            g = [gens.g4, gens.g4c, gens.g4p, gens.g4n][i % 4]
+            specs.compile_spec(gens.to_yaml_dict(g(rng)), "plain")
+    finally:
+        CoordAccess.build_expr = orig
+    seen, out = set(), []
+    for e, t in calls:
+        key = str(e)
+        if key in seen:
+            continue
+        seen.add(key)
+        out.append(("ok", key, t, sympy_json(e)))
+    return out
+
+
 def build_expr_cases(rng, n):
     """trees from CoordAccess.build_expr on random affine expressions (through sympy, as the compiler does)"""
     from sympy import symbols, Rational, Integer
@@ -65,9 +110,9 @@ def build_expr_cases(rng, n):
         try:
             t = CoordAccess.build_expr(e)
         except Exception as ex:
-            out.append(("error", str(e), "%s: %s" % (type(ex).__name__, ex)))
+            out.append(("error", str(e), "%s: %s" % (type(ex).__name__, ex), None))
             continue
-        out.append(("ok", str(e), t))
+        out.append(("ok", str(e), t, sympy_json(e)))
     return out
 
 
@@ -110,7 +155,8 @@ def run(ctx):
     # the coordinate-expression builder
     rng = random.Random(ctx.seed * 977 + 3)
     reqs, metas = [], []
-    for status, src, t in build_expr_cases(rng, 300 * k):
+    breqs, bmetas = [], []
+    for status, src, t, sj in build_expr_cases(rng, 300 * k) + recorded_build_expr_calls(rng, 60 * k):
         if status != "ok":
             ctx.stat("build_expr_rejected"); continue
         tree = export.expr(t)
@@ -122,6 +168,7 @@ def run(ctx):
             ctx.ob(False)
             ctx.violation(dict(kind="build-expr-not-python", sympy=src, text=text, reason=str(e)), True); continue
         reqs.append({"op": "prec_expr", "tree": tree, "py": py}); metas.append((src, text))
+        breqs.append({"op": "build_expr", "tree": tree, "sympy": sj}); bmetas.append((src, text, sj))
     for (src, text), a in zip(metas, common.lean_batch(reqs)):
         if "error" in a:
             raise common.InternalError("lean: " + a["error"])
@@ -133,6 +180,18 @@ def run(ctx):
             # semantic confirmation: evaluate both readings
             ctx.violation(dict(kind="build-expr", sympy=src, text=text, lean=a,
                                reason="CoordAccess.build_expr(%s) prints %r which does not denote the tree it built" % (src, text)), not a["norm_eq"])
+    # the builder itself against its Lean model (C09.build, C09.build_precok: every tree built from an expression of the SymPy shape is PrecOK)
+    for (src, text, sj), a in zip(bmetas, common.lean_batch(breqs)):
+        if "error" in a:
+            raise common.InternalError("lean: " + a["error"])
+        if not a["in_shape"]:
+            ctx.stat("build_expr_outside_sympy_shape"); continue
+        ok = a.get("built") and a.get("equal") and a.get("prec_ok")
+        ctx.ob(bool(ok)); ctx.stat("build_expr_model")
+        if not ok:
+            ctx.violation(dict(kind="build-expr-model", sympy=src, sympy_tree=sj, text=text, lean=a,
+                               obligation="C09.build (model of CoordAccess.build_expr, Props/C09Build) = the tree the real builder constructs",
+                               reason="CoordAccess.build_expr(%s) builds %r, the model builds %r" % (src, text, a.get("model_text"))), False)
 
 
 def replay(ctx, path):
